@@ -86,6 +86,7 @@ int main(int argc, char** argv) {
             }
         }
         printf("po_replay getters: %d mismatches over %zu accessors\n", bad, sizeof(table) / sizeof(table[0]));
+        boost::filesystem::remove_all(dir);
         return bad ? 1 : 0;
     }
     if (mode == "roundtrip") {
@@ -116,6 +117,7 @@ int main(int argc, char** argv) {
                 if (!same) { if (bad < 10) printf("MISMATCH scenario %d: %s() original=%s, from the saved config=%s\n", si, ac.name, x.c_str(), y.c_str()); bad++; } }
         }
         printf("po_replay roundtrip: %d mismatches over %zu scenarios\n", bad, scen.size());
+        boost::filesystem::remove_all(dir);
         return bad ? 1 : 0;
     }
     return 3;
